@@ -639,6 +639,15 @@ def bounded_total(label):
             q = b'{%d+}\r\n' % len(nm) + nm
             mlines += [b'a CREATE ' + q, b'a SELECT ' + q, b'a STATUS ' + q + b' (MESSAGES)', b'a APPEND ' + q + b' {1+}\r\nx', b'a RENAME ' + q + b' other',
                        b'a RENAME Sent ' + q, b'a SUBSCRIBE ' + q, b'a LIST "" ' + q, b'a COPY 1 ' + q, b'a DELETE ' + q]
+        # names of the files the store keeps next to the folders (fs layout: a sub-folder is a directory inside its parent's
+        # maildir directory): creating them must not get in the way of anything that follows
+        for ctl in (b'subscriptions', b'subscriptions.lock', b'dovecot-uidlist', b'dovecot-uidlist.lock', b'dovecot-keywords',
+                    b'dovecot.sieve', b'maildirfolder'):
+            for layout in ('++', 'fs'):
+                batches.append(('auth', [b'a CREATE ' + ctl, b'a SUBSCRIBE INBOX', b'a LSUB "" *', b'a SELECT INBOX', b'a NOOP',
+                                         b'a APPEND INBOX {1+}\r\nx', b'a STATUS INBOX (MESSAGES)', b'a CREATE Sub', b'a CREATE Sub/' + ctl,
+                                         b'a SELECT Sub', b'a APPEND Sub {1+}\r\nx', b'a STORE 1 +FLAGS (kw)', b'a SUBSCRIBE Sub',
+                                         b'a DELETE ' + ctl, b'a LIST "" *'], layout))
         for layout in ('++', 'fs'):
             for state in ('auth', 'selected'):
                 ls = list(mlines)
